@@ -410,6 +410,7 @@ func (b *Bar) serve(bs *bState) {
 		case op := <-b.operateState:
 			op(bs)
 		case <-b.ctx.Done():
+			vhook("bar.exit", b, 0, 0)
 			decoratorsOnShutdown(bs.decorGroups[0])
 			decoratorsOnShutdown(bs.decorGroups[1])
 			// bar can be aborted by canceling parent ctx without calling b.Abort
@@ -437,6 +438,7 @@ func (b *Bar) render(tw int) {
 		}
 		frame.rows, frame.err = s.extender(stat, r)
 		if s.aborted || s.completed() {
+			vhook("bar.render.terminal", b, s.shutdown, 0)
 			frame.shutdown = s.shutdown
 			frame.rmOnComplete = s.rmOnComplete
 			frame.noPop = s.noPop
@@ -461,6 +463,7 @@ func (b *Bar) tryEarlyRefresh(renderReq chan<- time.Time) {
 		}
 		return true // continue traverse
 	})
+	vhook("early.refresh", b, otherRunning, 0)
 	if otherRunning == 0 {
 		for {
 			select {
@@ -552,6 +555,7 @@ func (s *bState) wSyncTable() (table syncTable) {
 }
 
 func (s *bState) triggerCompletion(b *Bar) {
+	vhook("bar.trigger", b, 0, 0)
 	s.triggerComplete = true
 	if s.autoRefresh {
 		// Technically this call isn't required, but if refresh rate is set to
